@@ -594,77 +594,102 @@ func (b *BaseStore) Load(ctx context.Context, amount int) error {
 
 			span.AddEvent("store-head-loading")
 
-			l, inErr := ipfslog.NewFromEntryHash(ctx, b.IPFS(), b.Identity(), h.GetHash(), &ipfslog.LogOptions{
-				ID:               oplog.GetID(),
-				AccessController: b.AccessController(),
-				SortFn:           b.SortFn(),
-				IO:               b.options.IO,
-			}, &ipfslog.FetchOptions{
-				Length:       &amount,
-				Exclude:      oplog.GetEntries().Slice(),
-				ProgressChan: progress,
-			})
+			// the fetch applies the limit to everything it reaches: the entries left
+			// out below (written for another log, refused, at a wrong address) are
+			// not part of the log and must not count against the limit, so as many
+			// more are asked for as were left out, until the limit is met or the
+			// whole log has been fetched
+			var (
+				l     *ipfslog.IPFSLog
+				inErr error
+				own   []ipfslog.Entry
+			)
 
-			if inErr != nil {
-				span.AddEvent("store-head-loading-error")
-				err = fmt.Errorf("unable to create log from entry hash: %w", inErr)
-				return
-			}
+			fetchLength := amount
+			for {
+				l, inErr = ipfslog.NewFromEntryHash(ctx, b.IPFS(), b.Identity(), h.GetHash(), &ipfslog.LogOptions{
+					ID:               oplog.GetID(),
+					AccessController: b.AccessController(),
+					SortFn:           b.SortFn(),
+					IO:               b.options.IO,
+				}, &ipfslog.FetchOptions{
+					Length:       &fetchLength,
+					Exclude:      oplog.GetEntries().Slice(),
+					ProgressChan: progress,
+				})
 
-			// the fetcher swallows cancellation and fetch errors: when the context
-			// has ended, or the requested head did not come back, the load has
-			// failed (reporting success over a truncated or empty log lets the
-			// caller go on as if its data were there)
-			if ctxErr := ctx.Err(); ctxErr != nil {
-				span.AddEvent("store-head-loading-error")
-				err = fmt.Errorf("unable to load head %s: %w", h.GetHash().String(), ctxErr)
-				return
-			}
-
-			if _, ok := l.Get(h.GetHash()); !ok {
-				span.AddEvent("store-head-loading-error")
-				err = fmt.Errorf("unable to fetch head %s", h.GetHash().String())
-				return
-			}
-
-			// an entry written for another log must never be handed to Join, which
-			// would merge it as a head without verifying it (the replicator drops
-			// such entries the same way): only the entries of this log are joined.
-			// Join also refuses the whole log when one of its entries is refused by
-			// the access controller or not signed by the identity it names: such an
-			// entry (reachable from an accepted one) is left out as well, so that
-			// the entries the replicator had merged come back after a restart
-			var own []ipfslog.Entry
-			for _, e := range l.GetEntries().Slice() {
-				if e.GetLogID() != oplog.GetID() {
-					continue
+				if inErr != nil {
+					span.AddEvent("store-head-loading-error")
+					err = fmt.Errorf("unable to create log from entry hash: %w", inErr)
+					return
 				}
 
-				// Join does not walk through the entries the log already holds: on
-				// a store that holds a part of the log (loaded with a limit, written
-				// to or replicated into before this call) what lies below them would
-				// never be merged. Only the missing entries are handed to it
-				if _, held := oplog.Get(e.GetHash()); held {
-					continue
+				// the fetcher swallows cancellation and fetch errors: when the context
+				// has ended, or the requested head did not come back, the load has
+				// failed (reporting success over a truncated or empty log lets the
+				// caller go on as if its data were there)
+				if ctxErr := ctx.Err(); ctxErr != nil {
+					span.AddEvent("store-head-loading-error")
+					err = fmt.Errorf("unable to load head %s: %w", h.GetHash().String(), ctxErr)
+					return
 				}
 
-				// nor an entry fetched under an address that is not the address of
-				// its content (Sync and the replicator refuse it the same way)
-				if canonical, err := b.IO().Write(ctx, b.IPFS(), e, nil); err != nil || !canonical.Equals(e.GetHash()) {
-					continue
+				if _, ok := l.Get(h.GetHash()); !ok {
+					span.AddEvent("store-head-loading-error")
+					err = fmt.Errorf("unable to fetch head %s", h.GetHash().String())
+					return
 				}
 
-				if provider := b.Identity().Provider; provider != nil {
-					if err := b.AccessController().CanAppend(e, provider, &CanAppendContext{log: oplog}); err != nil {
+				// an entry written for another log must never be handed to Join, which
+				// would merge it as a head without verifying it (the replicator drops
+				// such entries the same way): only the entries of this log are joined.
+				// Join also refuses the whole log when one of its entries is refused by
+				// the access controller or not signed by the identity it names: such an
+				// entry (reachable from an accepted one) is left out as well, so that
+				// the entries the replicator had merged come back after a restart
+				own = nil
+				refused := 0
+				for _, e := range l.GetEntries().Slice() {
+					if e.GetLogID() != oplog.GetID() {
+						refused++
 						continue
 					}
 
-					if err := e.Verify(provider, b.IO()); err != nil {
+					// Join does not walk through the entries the log already holds: on
+					// a store that holds a part of the log (loaded with a limit, written
+					// to or replicated into before this call) what lies below them would
+					// never be merged. Only the missing entries are handed to it
+					if _, held := oplog.Get(e.GetHash()); held {
 						continue
 					}
+
+					// nor an entry fetched under an address that is not the address of
+					// its content (Sync and the replicator refuse it the same way)
+					if canonical, err := b.IO().Write(ctx, b.IPFS(), e, nil); err != nil || !canonical.Equals(e.GetHash()) {
+						refused++
+						continue
+					}
+
+					if provider := b.Identity().Provider; provider != nil {
+						if err := b.AccessController().CanAppend(e, provider, &CanAppendContext{log: oplog}); err != nil {
+							refused++
+							continue
+						}
+
+						if err := e.Verify(provider, b.IO()); err != nil {
+							refused++
+							continue
+						}
+					}
+
+					own = append(own, e)
 				}
 
-				own = append(own, e)
+				if amount <= 0 || refused == 0 || l.GetEntries().Len() < fetchLength || l.GetEntries().Len()-refused >= amount {
+					break
+				}
+
+				fetchLength = amount + refused
 			}
 
 			if len(own) != l.GetEntries().Len() {
